@@ -479,6 +479,43 @@ package yang
 //@   ensures  !typeis(n, *Import) && !typeis(n, *Include) ==> result == nil
 //@   safe
 
+// The namespace-to-module lookup and the instantiating module (C12, C19).
+// FindModuleByNamespace answers from its cache or, on a miss, with the one
+// loaded module that has the namespace (two such modules are an error), and
+// caches only what it found; the cache stays coherent: every cached module has
+// the namespace it is cached under and is loaded.
+//@ pred nsCacheOK(ms *Modules) = ms != nil && ms.byNS != nil && (forall n string :: has(ms.byNS, n) ==> ms.byNS[n] != nil && ms.byNS[n].Namespace != nil && ms.byNS[n].Namespace.Name == n
+//@     && (exists k string :: has(ms.Modules, k) && ms.Modules[k] == ms.byNS[n]))
+//@ pred modsHaveNS(ms *Modules) = forall k string :: has(ms.Modules, k) ==> ms.Modules[k] != nil && ms.Modules[k].Namespace != nil
+//@ func (*Modules).FindModuleByNamespace props C12 C19 C01
+//@   requires nsCacheOK(ms) && modsHaveNS(ms)
+//@   ensures  nsCacheOK(ms)
+//@   ensures  result1 == nil ==> result != nil && result.Namespace.Name == ns && (exists k string :: has(ms.Modules, k) && ms.Modules[k] == result)
+//@   ensures  result1 != nil ==> result == nil
+//@   ensures[a-miss-finds-the-only-module-of-that-namespace] result1 == nil && !old(has(ms.byNS, ns)) ==> (forall k string :: has(ms.Modules, k) && ms.Modules[k].Namespace.Name == ns ==> ms.Modules[k] == result)
+//@   ensures[no-such-namespace-is-an-error] !old(has(ms.byNS, ns)) && (forall k string :: has(ms.Modules, k) ==> ms.Modules[k].Namespace.Name != ns) ==> result1 != nil
+//@   modifies contents(ms.byNS)
+//@   safe
+//@   loop 1
+//@     modifies nothing
+//@     invariant found == nil ==> (forall k string :: visited(k) ==> ms.Modules[k].Namespace.Name != ns)
+//@     invariant found != nil ==> found.Namespace != nil && found.Namespace.Name == ns && (exists k string :: has(ms.Modules, k) && ms.Modules[k] == found) && (forall k string :: visited(k) && ms.Modules[k].Namespace.Name == ns ==> ms.Modules[k] == found)
+//@     invariant forall k string :: visited(k) ==> has(ms.Modules, k)
+//
+// The instantiating module of a node is the loaded module whose namespace is
+// the node's namespace (see Namespace above: the stamp of the nearest grafting
+// augment, else the module at the root of the tree the node sits in -- the
+// using, not the defining module; the owner for submodule content).
+//@ spec nsNameOf(e *Entry) string = nsAnchor(e).Parent != nil ? nsAnchor(e).namespace.Name
+//@     : ((nsAnchor(e).Node != nil && rootOf(nsAnchor(e).Node) != nil && nsOwner(rootOf(nsAnchor(e).Node)) != nil) ? nsOwner(rootOf(nsAnchor(e).Node)).Namespace.Name : "")
+//@ func (*Entry).InstantiatingModule props C12 C01
+//@   requires e != nil && (forall x *Entry :: ranked(x) && rootOK(x))
+//@   requires forall x *Entry :: x != nil && x.Node != nil && rootOf(x.Node) != nil ==> rootOf(x.Node).Modules != nil
+//@   requires nsCacheOK(asptr(rootE(e).Node, *Module).Modules) && modsHaveNS(asptr(rootE(e).Node, *Module).Modules)
+//@   ensures  result1 == nil ==> (exists k string :: has(asptr(rootE(e).Node, *Module).Modules.Modules, k) && asptr(rootE(e).Node, *Module).Modules.Modules[k].Name == result
+//@            && asptr(rootE(e).Node, *Module).Modules.Modules[k].Namespace.Name == old(nsNameOf(e)))
+//@   safe
+
 // ---------------------------------------------------------------------------
 // C17: schema path lookup.
 //
@@ -770,8 +807,14 @@ package yang
 //@   modifies nothing
 //@ func (*Entry).GetWhenXPath props C19
 //@   modifies nothing
-//@ func (*Entry).Modules props C19
+//@ func (*Entry).Modules props C19 C12 C01
+//@   requires e != nil && (forall x *Entry :: ranked(x) && rootOK(x))
+//@   ensures  result == asptr(rootE(e).Node, *Module).Modules
 //@   modifies nothing
+//@   safe
+//@   loop 1
+//@     invariant e != nil && rootE(e) == rootE(e0)
+//@     decreases rank(e)
 //
 //@ lock_property C19
 //@ guarded_by Modules.byNS nsMu
